@@ -245,6 +245,67 @@ theorem inherits_comparator_not_weak_order :
   have := h ⟨"b", ["a"]⟩ (by decide) ⟨"c", []⟩ (by decide) ⟨"a", []⟩ (by decide) (by decide) (by decide)
   exact absurd this (by decide)
 
+/-! ## accessor and init options of a flavor (round 4) -/
+
+theorem filter_sublist_nodup {vars sel : List String} (hs : sel.Sublist vars) (hn : vars.Nodup) :
+    vars.filter (fun v => decide (v ∈ sel)) = sel := by
+  induction hs with
+  | slnil => rfl
+  | @cons l₁ l₂ a h ih =>
+    have hn' := List.nodup_cons.mp hn
+    have ha : a ∉ l₁ := fun hm => hn'.1 (h.subset hm)
+    rw [List.filter_cons_of_neg (by simpa using ha)]
+    exact ih hn'.2
+  | @cons_cons l₁ l₂ a h ih =>
+    have hn' := List.nodup_cons.mp hn
+    have e : l₂.filter (fun v => decide (v ∈ a :: l₁)) = l₂.filter (fun v => decide (v ∈ l₁)) := by
+      apply List.filter_congr
+      intro x hx
+      have : x ≠ a := fun e => hn'.1 (e ▸ hx)
+      simp [this]
+    rw [List.filter_cons_of_pos (by simp), e, ih hn'.2]
+
+/-- **Every selection survives the load form**: for a flavor with the (distinct) variables `vars`
+    and any selection of them, in their order — none, all, one, any subset, inherited variables
+    included — defflavor reads back from the written option exactly the selection. -/
+theorem sel_roundtrip (vars sel : List String) (hs : sel.Sublist vars) (hn : vars.Nodup) :
+    (writeSel vars sel).names vars = sel := by
+  unfold writeSel writeSelBy
+  by_cases h0 : sel.isEmpty
+  · simp [h0, Sel.names, List.isEmpty_iff.mp h0]
+  · by_cases hl : sel.length = vars.length
+    · have e := hs.eq_of_length hl
+      subst e
+      have h1 : sel ≠ [] := by simpa using h0
+      simp [h1, Sel.names]
+    · have h := filter_sublist_nodup hs hn
+      have h1 : sel ≠ [] := by simpa using h0
+      simp [h1, hl, Sel.names, h]
+
+/-- the three options are written independently: the reloaded flavor has the same getters, setters
+    and init keywords -/
+theorem flavor_options_roundtrip (vars : List String) (o : FlavOpts) (hn : vars.Nodup)
+    (hg : o.gets.Sublist vars) (hs : o.sets.Sublist vars) (hi : o.inits.Sublist vars) :
+    reloadOpts (fun _ sel => writeSel vars sel) vars o = o := by
+  cases o
+  simp_all [reloadOpts, sel_roundtrip]
+
+/-- witness of the seeded mutant C19-12 (abbreviation of :settable decided by the GETTABLE count): a
+    flavor with the variables level, limit, all gettable, only level settable, comes back with
+    `:set-limit` too -/
+theorem gets_rule_adds_setters :
+    (reloadOpts (writeSelGetsRule ["level", "limit"]) ["level", "limit"]
+      { gets := ["level", "limit"], sets := ["level"], inits := [] }).sets = ["level", "limit"] := by
+  decide
+
+/-- witness of the defect repaired by fix 0017 (selections judged against the variables the form
+    DECLARES instead of all variables of the flavor): b with own variable x and inherited v, w, x
+    alone settable, was written with the bare option and came back with setters for v and w -/
+theorem own_count_rule_adds_inherited :
+    (writeSelBy 1 ["x"]).names ["v", "w", "x"] = ["v", "w", "x"]
+    ∧ (writeSel ["v", "w", "x"] ["x"]).names ["v", "w", "x"] = ["x"] := by
+  decide
+
 end SlipVerif.LoadForm
 
 
